@@ -292,6 +292,10 @@ class Run(object):
     if reported:
       print("FAIL property=%s violations=%d wall=%.1fs" % (self.pid, nviol, wall))
       return 1
+    if getattr(self, "driver_error", None):
+      print("HARNESS-ERROR property=%s the check's driver crashed without reporting a violation:\n%s"
+            % (self.pid, self.driver_error))
+      return 3
     if status:
       return status
     print("OK property=%s tier=%s seed=%d evaluations=%d wall=%.1fs"
@@ -444,7 +448,13 @@ def main(argv=None):
         continue
       run.run_kind(kname)
     if hasattr(module, "main") and not only:
-      module.main(run)
+      try:
+        module.main(run)
+      except Exception:
+        # the violations collected so far must still be reported; a driver crash with no
+        # violation at all is a harness error (exit 3), never silence
+        run.driver_error = traceback.format_exc()
+        run.caps.append("custom driver crashed: " + run.driver_error.strip().splitlines()[-1])
     if only:
       run.caps.append("partial run: --only " + a.only)
     return run.finish()
